@@ -109,7 +109,7 @@ func run(r *core.Run) {
 	}
 	r.Exhaustive = true
 	// generated histories (structured stream)
-	n := r.N(6, 200)
+	n := r.N(6, 50)
 	for i := 0; i < n; i++ {
 		f := core.Pick(rd, formats)
 		cache := -1
